@@ -145,7 +145,7 @@ class Outcome:
         pc = self.cx.pc if pc_len is None else self.cx.pc[:pc_len]
         return list(self.cx.facts) + list(pc)
 
-    def prove(self, name, goal, pc_len=None, extra_hyps=(), kind='ensures', budget_ms=None, hints=()):
+    def prove(self, name, goal, pc_len=None, extra_hyps=(), kind='ensures', budget_ms=None, hints=(), atomize=False):
         goal = T.truthy(goal) if not isinstance(goal, bool) else goal
         if T.is_z3(goal) and pc_len is None and self.cx.known:
             # resolve flags already decided on this path (propositional constants in the path condition) inside the goal
@@ -157,6 +157,8 @@ class Outcome:
             t = N(t)
             if T.is_z3(t):
                 hs.append(t == t)
+        if atomize and T.is_z3(goal):
+            hs, goal = atomize_transcendentals(hs, goal)
         self.V.record(self, name, hs, goal, kind, budget_ms)
 
     def prove_all(self, clauses):
@@ -203,6 +205,33 @@ class Outcome:
             for ix in np.ndindex(*arr.a.shape):
                 goals.append(T.seq(arr.a[ix], orig(*ix)))
             self.prove('frame/%s-unchanged' % name, T.sand(*goals) if goals else True, kind='frame')
+
+
+def atomize_transcendentals(hyps, goal):
+    """Sound generalisation for polynomial identities: every application of exp/sin/cos/sqrt/log/pow is replaced by a
+    fresh real constant (consistently in hypotheses and goal).  What is valid for arbitrary values of these atoms that
+    satisfy the retained identity instances (sqrt^2, sin^2+cos^2, exp>0, ...) is valid for the actual functions."""
+    names = {'exp', 'sin', 'cos', 'sqrt', 'log10', 'log2', 'ln', 'pow'}
+    found = {}
+
+    def walk(t):
+        if t.get_id() in seen:
+            return
+        seen.add(t.get_id())
+        if z3.is_app(t) and t.num_args() > 0 and t.decl().kind() == z3.Z3_OP_UNINTERPRETED and t.decl().name() in names:
+            found[t.get_id()] = t
+            return                     # outermost application only (nested ones disappear with it)
+        for c in t.children():
+            walk(c)
+    seen = set()
+    for f in list(hyps) + [goal]:
+        if T.is_z3(f):
+            walk(f)
+    if not found:
+        return hyps, goal
+    subs = [(t, z3.Real('atom!%s!%d' % (t.decl().name(), k))) for k, t in enumerate(found.values())]
+    new_h = [z3.substitute(h, *subs) if T.is_z3(h) else h for h in hyps]
+    return new_h, z3.substitute(goal, *subs)
 
 
 # ================================================================================================ verifier
